@@ -748,4 +748,42 @@ example : Gen.Logic.create_mpint (-129) true 8 = some [255, 127] ∧ Gen.Logic.c
     ∧ Gen.Logic.create_mpint 0 true 0 = some [] ∧ Gen.Logic.create_mpint 18446744073709551616 true 65 = some [1, 0, 0, 0, 0, 0, 0, 0, 0] := by
   decide
 
+/-! ### SSH-1: the regenerated unsigned writer, the length `read_mpint1` computes, and the regenerated reader -/
+
+theorem createMpintI_nat (n : Nat) : Wire.createMpintI (n : Int) = Wire.createMpintU n := by
+  unfold Wire.createMpintI Wire.createMpintU
+  simp only [Int.natAbs_natCast]
+  have hz : ((n : Int) = 0) = (n = 0) := by simp
+  simp only [hz]
+  have hm : ∀ len, ((n : Int) % (256:Int)^len).toNat = n % 256^len := by
+    intro len
+    have : ((256:Int)^len) = ((256^len : Nat) : Int) := by simp
+    rw [this, ← Int.natCast_emod, Int.toNat_natCast]
+  rw [hm]
+  have hlt : n < 256 ^ (Wire.bitLen n / 8 + if n = 0 then 0 else 1) := by
+    by_cases h0 : n = 0
+    · subst h0; exact Nat.pow_pos (by decide)
+    · simp only [h0, if_false]
+      have h1 := Wire.lt_two_pow_bitLen n
+      have h2 : (2:Nat) ^ Wire.bitLen n ≤ 2 ^ (8 * (Wire.bitLen n / 8 + 1)) := Nat.pow_le_pow_right (by decide) (by omega)
+      rw [Nat.pow_mul, show (2:Nat) ^ 8 = 256 by decide] at h2
+      omega
+  rw [Nat.mod_eq_of_lt hlt]
+
+/-- `read_mpint1` asks for exactly as many bytes as the writer emitted after the 16-bit header -/
+theorem mpint1_nbytes_eq_model (n : Nat) :
+    Gen.Logic.mpint1_nbytes (Wire.bitLen n : Int) = ((Wire.bytesOf (Wire.createMpintU n)).length : Int) := by
+  unfold Gen.Logic.mpint1_nbytes
+  rw [C10.createMpintU_eq]
+  simp only [Wire.bytesOf, List.length_map, Wire.minBE_length]
+  omega
+
+/-- SSH-1 writer and reader as they stand in the source, composed: every natural number comes back -/
+theorem regenerated_roundtrip_ssh1 (n : Nat) :
+    ((Gen.Logic.create_mpint (n : Int) false (Wire.bitLen n : Int)).bind fun d => Gen.Logic.parse_mpint d [0] ['>', 'I']) = some (n : Int) := by
+  have h := create_mpint_eq_model (n : Int) false
+  simp only [Int.natAbs_natCast, Bool.false_eq_true, if_false] at h
+  rw [h, Option.bind_some, parse_unsigned, createMpintI_nat, C10.createMpintU_eq, ← beNat_natsOf,
+    Wire.natsOf_bytesOf _ (Wire.minBE_lt n), Wire.ofBE_minBE]
+
 end SshAudit.GenLogic
